@@ -172,15 +172,20 @@ CHECKS = {
    technique="Coq proof (protocol automaton invariant over all crash prefixes and torn writes) + strace kill-at-every-syscall differential vs SQLite recovery",
    design="DESIGN.md section 6, C09"),
  "C10": dict(
-   text="The CREATE TABLE / CREATE INDEX parser is not modelled by hand: its LALR tables, token numbers, keyword table and all 107 semantic actions are TRANSLATED from sql/parser.go (and "
+   text="The CREATE TABLE / CREATE INDEX parser is not modelled by hand: its LALR tables, token numbers, keyword table and all semantic actions are TRANSLATED from sql/parser.go (and "
         "the grammar from parser.go.y, cross-checked against the tables) into Coq on every run, and goyacc's driver loop is transcribed once over them (Model/SqlParse.v); Coq proves on "
-        "the translated text that every value an action reads is defined by the grammar symbol it reads it from (C10_actions_read_defined_values). Schema interpretation (db/schema.go) "
-        "is decided against the real thing: grammar-generated definitions (constraints in any order, duplicated / overlapping / named, quoted identifiers, COLLATE, ASC/DESC, WITHOUT "
-        "ROWID, expression and partial indexes) are executed by SQLite and what it accepts is read through sqlittle and compared with PRAGMA table_xinfo / index_list / index_xinfo and "
-        "a behavioural rowid-alias test: columns, WITHOUT ROWID, alias, primary key, every index name / key columns / collations / directions.",
-   note="PARTIAL: newCreateTable's rules (alias, merge, numbering, late INTEGER PRIMARY KEY index) are not yet stated as a Coq function with a theorem; they are decided by the oracle comparison. "
-        "This work found and repaired 8 disagreements of those rules with SQLite (known_findings.json 'fixed'); three more are recorded as known findings.",
-   technique="translated parser tables and actions (re-checked in Coq every run) + differential vs SQLite's PRAGMA schema introspection",
+        "the translated text that every value an action reads is defined by the grammar symbol it reads it from (C10_actions_read_defined_values). db/schema.go's interpretation of the "
+        "parsed statement is an executable Coq function over those statements (Model/Schema.v: constraints in textual order, rowid alias rule, merging of redundant UNIQUE / PRIMARY KEY, "
+        "autoindex numbering, the late INTEGER PRIMARY KEY index of WITHOUT ROWID tables, DEFAULT with column affinity), proved for every statement value: SQLite's redundancy relation is an "
+        "equivalence (C10_redundancy_is_equivalence); a WITHOUT ROWID table has no rowid alias, a rowid table no primary key column list, constraint indexes are pairwise non-redundant "
+        "(C10_create_table_invariants). Agreement with SQLite is decided against the real thing on every run: grammar-generated definitions (constraints in any order, duplicated / "
+        "overlapping / named, quoted identifiers, COLLATE, ASC/DESC, WITHOUT ROWID, DEFAULT forms, expression and partial indexes) are executed by SQLite and what it accepts is read through "
+        "sqlittle and compared with PRAGMA table_xinfo / index_list / index_xinfo and a behavioural rowid-alias test; and the same definitions - sqlite_master's texts, tokenized by the "
+        "implementation, parsed by the translated parser, interpreted by Model/Schema.v - must give db.Schema()'s answer (columns, defaults, alias, NOT NULL, collations, every index).",
+   note="PARTIAL: that the rules of Model/Schema.v ARE SQLite's is decided by the oracle comparison on generated definitions, not by a theorem (SQLite's build.c is not modelled). ASCII "
+        "identifiers only in the model (Go folds case with Unicode tables); DEFAULTs that need strconv.ParseFloat are compared as 'unknown'. This work found and repaired 10 disagreements "
+        "of those rules with SQLite (known_findings.json 'fixed'); three more are recorded as known findings.",
+   technique="translated parser tables and actions + hand model of schema.go tied by differential (proofs of its invariants in Coq) + differential vs SQLite's PRAGMA schema introspection",
    design="DESIGN.md section 6, C10"),
  "C16": dict(
    text="The parser is not modelled by hand: on every run the 11 LALR tables, the token numbers, the tokenizer's keyword table, all 107 semantic actions (sql/parser.go) and the grammar with its "
